@@ -434,19 +434,14 @@ func (c *FnCtx) autoCandidates(li *loopInfo, st *State, cond Term, mode string) 
 				}
 			}
 			sort.Strings(sk)
-			var ids []int
-			for _, id := range bc.flagOf {
-				ids = append(ids, id)
+			// candidate: once the loop index has passed the skolem index, the clause body holds
+			env := c.clauseEnv(bc, st, nil)
+			bt, err := c.evalBool(bc.body, env)
+			if err != nil {
+				continue
 			}
-			sort.Ints(ids)
-			for _, id := range ids {
-				ft := st.flags[id]
-				if ft == "" {
-					ft = "false"
-				}
-				for _, k := range sk {
-					cs = append(cs, cnd{fmt.Sprintf("flag%d:%s<=idx", id, k), implies(and(app("<=", "0", bc.skolems[k].S), app("<=", bc.skolems[k].S, phi.S)), ft)})
-				}
+			for _, k := range sk {
+				cs = append(cs, cnd{fmt.Sprintf("%s:%s<=idx", bc.name, k), implies(and(app("<=", "0", bc.skolems[k].S), app("<=", bc.skolems[k].S, phi.S)), bt)})
 			}
 		}
 	}
@@ -618,11 +613,15 @@ func (c *FnCtx) checkFrame(st *State, where string) {
 // source variable `name` (a range key / value or a variable declared in the loop).
 func (c *FnCtx) loopOfVar(name string) *loopInfo {
 	var refs []*ssa.BasicBlock
+	var decl []*ssa.BasicBlock
 	for _, b := range c.fn.Blocks {
 		for _, ins := range b.Instrs {
 			if d, ok := ins.(*ssa.DebugRef); ok {
 				if obj := d.Object(); obj != nil && obj.Name() == name {
 					refs = append(refs, b)
+					if d.Expr != nil && d.Expr.Pos() == obj.Pos() {
+						decl = append(decl, b)
+					}
 				}
 			}
 		}
@@ -630,18 +629,27 @@ func (c *FnCtx) loopOfVar(name string) *loopInfo {
 	if len(refs) == 0 {
 		return nil
 	}
-	var best *loopInfo
-	for _, li := range c.loopOrd {
-		all := true
-		for _, b := range refs {
-			if !li.blocks[b] {
-				all = false
-				break
+	innermost := func(bs []*ssa.BasicBlock) *loopInfo {
+		var best *loopInfo
+		for _, li := range c.loopOrd {
+			all := true
+			for _, b := range bs {
+				if !li.blocks[b] {
+					all = false
+					break
+				}
+			}
+			if all && (best == nil || len(li.blocks) < len(best.blocks)) {
+				best = li
 			}
 		}
-		if all && (best == nil || len(li.blocks) < len(best.blocks)) {
-			best = li
+		return best
+	}
+	// the loop in which the variable is declared (range key/value, := in the body)
+	if len(decl) > 0 {
+		if li := innermost(decl); li != nil {
+			return li
 		}
 	}
-	return best
+	return innermost(refs)
 }
